@@ -70,7 +70,11 @@ def mutations(ty, v):
         if f.tag is not None and not dg.absent(f, x) or (f.tag is not None and enc == "a" and any(g.idx > f.idx for g, _ in present)):
             # the field is on the wire (present, or a tagged null below the highest present index)
             if not (enc == "m" and dg.absent(f, x)):
-                out += [(("ftag", pos, "wrong"), "tag"), (("ftag", pos, "missing"), None)]
+                out.append((("ftag", pos, "wrong"), "tag"))
+                # without its tag a value is an error; a nil field's `null` is not: a tagged field whose type has a nil value
+                # accepts the bare `null` an encoder that does not know the field leaves there (the K5 repair)
+                if not dg.absent(f, x):
+                    out.append((("ftag", pos, "missing"), None))
         if not dg.is_optional(f):
             rest = [g.idx for g, _ in present if g is not f]
             cls = "missing" if enc == "m" or not rest or max(rest) < f.idx else None
